@@ -33,6 +33,15 @@ def stage0(r, tier):
             cases.append(("in-udp", "udp_decode %s" % hx(body), dict(host=h.hex(), port=p, lossy=lossy)))
         if not lossy:
             cases.append(("in-text", "target_parse %s" % hx(h + b":" + str(p).encode()), dict(host=h.hex(), port=p, lossy=False)))
+    # the bound of the SOCKS4 string reader (1024 bytes): hosts and user ids around it and far beyond; a field that does
+    # not fit must be refused, never cut short or continued in the next field
+    for L in (1000, 1021, 1022, 1023, 1024, 1025, 1026, 2047, 2048, 2049, 3000):
+        h = bytes(97 + (i % 26) for i in range(L))
+        p = r.choice(PORTS)
+        cases.append(("in-s4a", "socks_req_read 0 %s" % hx(socks_req_msg(r, ("domain", h, p), 4, auth=(b"u", b""))), dict(host=h.hex(), port=p, lossy=False)))
+        uid = bytes(65 + (i % 26) for i in range(L)) + b"evil.example"
+        cases.append(("in-s4a", "socks_req_read 0 %s" % hx(socks_req_msg(r, ("domain", b"good.example", p), 4, auth=(uid, b""))), dict(host=b"good.example".hex(), port=p, lossy=False)))
+        cases.append(("in-s4a", "socks_req_read 0 %s" % hx(socks_req_msg(r, ("v4", b"\x01\x02\x03\x04", p), 4, auth=(uid, b""))), dict(lossy=False)))
     for txt in [b"1.2.3.4:80", b"01.2.3.4:80", b"1.2.3.4:080", b"1.2.3.4:65536", b"256.1.1.1:1", b"1.2.3:4", b"1.2.3.4.5:6", b"a:+80", b"a:-1",
                 b"a:", b":", b"", b"a", b"a:b:c:99", b"1.2.3.4:+80", b"1.2.3.4", b"0.0.0.0:0", b"255.255.255.255:65535", b"1.2.3.4: 80",
                 b"[::1]:80", b"[::ffff:1.2.3.4]:1", b"::1:80", b"a:00080", b"a:99999"]:
